@@ -63,7 +63,22 @@ def sim_dir():
     return os.path.join(alt_base(), "sim")
 
 
+_LINK_DONE = False
+_LINK_LOCK = __import__("threading").Lock()
+
+
 def ensure_sut_link():
+    """Idempotent and done once per process (builds run in parallel threads; the
+    mirror for scratch copies must not be re-copied under a running cargo)."""
+    global _LINK_DONE
+    with _LINK_LOCK:
+        if _LINK_DONE:
+            return
+        _ensure_sut_link()
+        _LINK_DONE = True
+
+
+def _ensure_sut_link():
     want = repo()
     if not os.path.isdir(os.path.join(want, "jmespath", "src")):
         raise HarnessError("no jmespath sources under %s" % want)
